@@ -6,5 +6,8 @@ import MtailVerif.Props.C14
 #print axioms MtailVerif.C14.refused_iff_kind_conflict
 #print axioms MtailVerif.C14.moved_declaration_duplicates
 #print axioms MtailVerif.C14.partial_registration_counterexample
-#print axioms MtailVerif.C14.loader_skeletons
 #print axioms MtailVerif.C14.reload_with_other_buckets_starts_afresh
+#print axioms MtailVerif.C14.loader_skeletons
+#print axioms MtailVerif.C14.f_runtime_runtime_skeletons
+#print axioms MtailVerif.C14.f_metrics_store_skeletons
+#print axioms MtailVerif.C14.f_exporter_prometheus_skeletons
